@@ -199,7 +199,34 @@ def r10_4(ctx):
     r4_4(ctx)
 
 
+def r10_6(ctx):
+    """'automatic tasks progress at such steps exactly when perform_auto_task_while_absence_time is set': decided on the *value* of
+    the argument of this call -- with the argument False no absence-step path performs anything (whatever an earlier run, the
+    constructor or a loaded file left on the project), with True every absence-step path performs the automatic tasks."""
+    ctx.begin("R10.6", "absence step performs automatic tasks iff the flag argument of this simulate() call is set", floor=2)
+    f, loop = sim_loop(ctx)
+    name = "perform_auto_task_while_absence_time"
+    ctx.require(name in f.params, f"simulate() has no parameter {name}")
+    for flag in (False, True):
+        paths = loop_paths(ctx, bind={name: Const(flag)}, keep_heap=(name,))
+        n = 0
+        for p in paths:
+            if p["exit"] is not None or working_of(p) is not False:
+                continue
+            n += 1
+            performed = any(c == "perform" for c, _ in p["phases"])
+            ctx.instance(construct(f, f"flag={flag}:absence-path-{n}"), sample={"flag": flag, "performs": performed})
+            if performed != flag:
+                e = next((e for c, e in p["phases"] if c == "perform"), None)
+                ctx.violation(construct(f, f"auto-task-flag={flag}"), e.loc if e is not None else f.loc(loop),
+                              f"simulate({name}={flag}): an absence step {'performs automatic tasks' if performed else 'does not perform the automatic tasks'}"
+                              + (" -- the decision reads something other than this call's argument (a value left on the project by an earlier run, the constructor or a loaded file)" if performed else ""))
+        ctx.require(n >= 1, f"no absence-step path for {name}={flag}")
+    ctx.end()
+
+
 def run(ctx):
+    r10_6(ctx)
     r10_1(ctx)
     r10_2(ctx)
     r10_2b(ctx)
